@@ -32,7 +32,9 @@ def state(f):
 
 def child(req):
     rnd = random.Random(req["seed"])
-    r = nixrun.Runner(req["path"], False)
+    # the file-level compression setting is part of "every operation history"
+    comp = rnd.choice([None, nixio.Compression.No, nixio.Compression.DeflateNormal])
+    r = nixrun.Runner(req["path"], False, compression=comp)
     g = nixrun.Gen(rnd, r, req.get("profile", {}))
     ops = []
     for k in range(req["len"]):
